@@ -210,8 +210,10 @@ def run_case(case):
     d0 = cal.date3(case['start'])
     idx = []
     d = d0
+    hol = case.get('holidays', 0)
     while len(idx) < n:
-        if d.weekday() < 5:
+        # (with `holidays` some weekdays have no row at all: exchange holidays)
+        if d.weekday() < 5 and not (hol and (d.toordinal() % hol == 0)):
             idx.append(d)
         d += D.timedelta(days=1)
     o = oracle(e, idx)
@@ -383,6 +385,22 @@ def run_case(case):
             if [v for _, v in ss['drawdowns']] != got_dd or float(ss['cagr']) != float(s['cagr']):
                 raise Violation('strategy statistics change when a benchmark curve is supplied')
             cls.append('with_benchmark')
+        # a frame that was analysed once, then cut to a later start (a burn-in) and analysed again: the second
+        # analysis describes the shorter curve
+        if case.get('reslice') and n >= 6:
+            k_ = max(1, n // 3)
+            frame = pd.DataFrame({'Equity': list(e)}, index=list(idx))
+            alloc_ = pd.DataFrame({'EQ:A': [1.0] * n}, index=list(idx))
+            q.JSONStatistics(frame, alloc_, output_filename=tmp, periods=P)
+            sl = q.JSONStatistics(frame.iloc[k_:], alloc_.iloc[k_:], output_filename=tmp, periods=P).statistics['strategy']
+            o2 = oracle(e[k_:], idx[k_:])
+            if not close(float(sl['cagr']), o2['cum_last'] ** (float(P) / (n - k_)) - 1, 1e-9, 1.0):
+                raise Violation('CAGR of the curve cut to its last %d observations (frame analysed once before) is %r; the '
+                                'definition gives %r' % (n - k_, float(sl['cagr']), o2['cum_last'] ** (float(P) / (n - k_)) - 1))
+            if abs(float(sl['max_drawdown']) - o2['maxdd']) > 1e-9 or abs(sl['returns'][0][1]) > 0:
+                raise Violation('statistics of a re-analysed, shortened frame: max drawdown %r (definition %r), first return %r' % (
+                    float(sl['max_drawdown']), o2['maxdd'], sl['returns'][0][1]))
+            cls.append('frame_analysed_twice_second_time_shortened')
         # scale invariance
         k2 = 2.0 ** case['pow2']
         _, s2 = stats_for(q, [x * k2 for x in e], idx, tmp, P)
@@ -460,7 +478,8 @@ def cases(draw):
     return {'whole_units': whole, 'shape': shape, 'start': [d0.year, d0.month, d0.day], 'equity': e, 'benchmark': bench,
             'benchmark_lead': draw(st.sampled_from([0, 0, 5, 40])) if bench else 0,
             'panel': draw(st.sampled_from([False, False, False, True])),
-            'alloc_lag': draw(st.sampled_from([0, 0, 1, 21])),
+            'alloc_lag': draw(st.sampled_from([0, 0, 1, 21])), 'holidays': draw(st.sampled_from([0, 0, 9, 23])),
+            'reslice': draw(st.sampled_from([False, False, True])),
             'periods': draw(st.sampled_from([252, 252, 52, 12, 365])), 'pow2': draw(st.sampled_from([1, -3, 10, 4])),
             'scale': draw(st.sampled_from([3.7, 0.01, 1e3, 1.1, 0.37]))}
 
